@@ -241,6 +241,21 @@ pub fn check(sc: &Scenario, ex: &mut Exec) -> (Verdict, Option<String>) {
             });
             continue;
         }
+        // the (epsilon, delta) of the key release is computed for units capped at Cu keys
+        match ir::cap_below(t) {
+            Some(c) if c <= cu => {}
+            other => violations.push(Violation {
+                property: "C03".into(),
+                invariant: "threshold_cap".into(),
+                class: "unclassified".into(),
+                detail: format!(
+                    "the key release is recorded for units contributing to at most Cu = {} keys, but the rewritten query {} before counting units per key",
+                    cu,
+                    match other { Some(c) => format!("caps contributions at {}", c), None => "applies no contribution cap".to_string() }
+                ),
+                witness: json!({"cu": cu, "cap_in_query": other}),
+            }),
+        }
         let z = (t.tau - 1.0) / sigma;
         let d_exact = budget::delta_of_z(z, cu);
         // the compiler computes tau from (1 - delta)^(1/Cu) in f64: an absolute rounding of
